@@ -192,4 +192,32 @@ theorem iExtIter_own {loc locB} : ∀ (k : Nat) (s : St), OwnL fl s loc locB →
       · exact iExtIter_own k _ (h1.1.store (by assumption))
       · exact h1.1.dropId
 
+/-- `pop_if`: the predicate is a fault point before anything is moved -/
+theorem iPopIf_own {s loc locB} (ans : Bool) (h : OwnL fl s loc locB) :
+    OwnL fl (iPopIf ans s).2 loc locB := by
+  unfold iPopIf
+  split
+  · exact h
+  · have h1 := h.tick
+    generalize s.onMem Mem.tick = r at h1
+    obtain ⟨p, s1⟩ := r
+    simp only at h1 ⊢
+    split
+    · exact h1
+    · split
+      · exact iPop_own h1
+      · exact h1
+
+/-- `extend` with its `into_iter` call and the drop of the iterator as fault points -/
+theorem iExtend_own {s loc locB} (k : Nat) (h : OwnL fl s loc locB) :
+    OwnL fl (iExtend k s).2 loc locB := by
+  unfold iExtend
+  have h1 := h.tick
+  generalize s.onMem Mem.tick = r at h1
+  obtain ⟨p, s1⟩ := r
+  simp only at h1 ⊢
+  split
+  · exact h1
+  · exact (iExtIter_own k s1 h1).tick
+
 end HipVerif.Slots
